@@ -114,7 +114,7 @@ theorem ded_step (hwf : WF S = true) (hwd : WFD S = true) (sup : StructDef → B
             obtain ⟨vs, hv, hshape, hok, ⟨b, hb⟩, stc, hstc, -, hobj⟩ :=
               ded_concrete hctx hwc hwdc hearly hdec (fun vs hv => (hfit' vs hv).2)
             subst hv
-            have hdm := header_disc (S := S) (T := T) (r := r) hwc.names hbase htake hearly hcarry hsth hstc hobj hdisc
+            have hdm := header_disc (S := S) (T := T) (r := r) hwc.names hbase htake hcarry hsth hstc hobj hdisc
             refine ⟨?_, b, ?_⟩
             · simp only [hab, if_true, hfc, hna, Bool.false_eq_true, if_false, Bool.and_eq_true]
               refine ⟨hok, ?_⟩
